@@ -436,6 +436,55 @@ def r5_replay_after_accept(ctx):
                 r.ok(k, cfg.loc(body, i), "%s only after Success" % n, work=len(body.blocks))
 
 
+TREE_DEPENDENT = {"replace_all_events", "patch_checked", "rewind", "diff_checked", "diff_unchecked"}
+
+
+def r7_fresh_log_is_loaded(ctx):
+    """An event log object constructed in a function has an EMPTY in-memory
+    tree until load_tree() runs; operations that consult the tree (the
+    checkpoint gate, the snapshot decision of replace_all_events, rewind) must
+    not be invoked on it before."""
+    ws = ctx.ws
+    r = ctx.rule("C07-R7", "a freshly opened event log is loaded before any operation that consults its commit tree",
+                 floor=2, kind="K2 typestate (opened -> loaded)")
+    n = 0
+    for f in ws.fns.values():
+        if f.crate in idioms.TEST_CRATES:
+            continue
+        for b in f.bodies:
+            live = cfg.live_blocks(b)
+            news = [(i, t) for i, t in idioms.real_calls(b, live)
+                    if re.search(r"event_log::\w*EventLog", t.get("callee") or "") and cname(t).startswith("new_")]
+            if not news:
+                continue
+            ops = [(i, t) for i, t in idioms.real_calls(b, live) if cname(t) in TREE_DEPENDENT and t.get("trait") == EVENTLOG]
+            if not ops:
+                continue
+            fg = FlowGraph(ws, f)
+            loads = [(i, t) for i, t in idioms.real_calls(b, live) if cname(t) == "load_tree" and t.get("trait") == EVENTLOG]
+            for (ci, ct) in news:
+                start, _at = idioms.success_start(b, ci)
+                mine_loads = []
+                for (li, lt) in loads:
+                    p0 = cfg.op_place(lt["args"][0])
+                    if p0 is not None and ci in idioms.origin_calls(b, p0):
+                        mine_loads.append(li)
+                for (oi, ot) in ops:
+                    p0 = cfg.op_place(ot["args"][0])
+                    if p0 is None or ci not in idioms.origin_calls(b, p0):
+                        continue
+                    n += 1
+                    k = "%s|%s-on-fresh-log" % (b.root, cname(ot))
+                    if oi in cfg.reach(b, start, cut_blocks=mine_loads):
+                        r.violation(k, cfg.loc(b, oi),
+                                    "`%s` is called on a log opened a few lines above without load_tree(): its tree is empty, so the checkpoint/snapshot logic works on the wrong state (a refused request cannot be rolled back)" % cname(ot),
+                                    work=len(live), witness=cfg.path_lines(b, cfg.find_path(b, start, [oi], cut_blocks=mine_loads)))
+                    else:
+                        r.ok(k, cfg.loc(b, oi), "load_tree precedes %s" % cname(ot), work=len(live))
+    if n < 2:
+        r.anchor_missing("tree-dependent operations on logs opened in the same function (found %d)" % n)
+
+
 # Calls that change derived state when a merge replays events.
 EFFECTS = {"create_secret", "update_secret", "delete_secret", "set_vault_name",
            "set_vault_flags", "set_vault_meta", "import_folder", "delete_folder",
@@ -462,6 +511,7 @@ def run(ctx):
     r3_rewind_undone(ctx)
     r4_rollback_order(ctx)
     r5_replay_after_accept(ctx)
+    r7_fresh_log_is_loaded(ctx)
     if ctx.tier == "thorough" and ctx.config == "workspace":
         from .. import witness
         witness.run(ctx, 'C07-R6', 'rewind-and-patch and sync helpers cannot be called through a read guard', {'PatchNeedsWriteGuard': 'event_patch(req, &mut *read_guard)', 'SyncNeedsWriteGuard': 'sync_account(packet, &mut *read_guard)'})
